@@ -11,10 +11,10 @@
 (* A failed clause is printed as a FAIL line and the step is taken.  Clause names:       *)
 (*   precision_not_reported, range_not_reported, zero_scale_not_reported,                *)
 (*   odd_count_not_reported, bad_enum_not_rejected, valid_call_not_normal,               *)
-(*   execute_returned_false, and the classes of genuine defects of the unchanged tree    *)
-(*   (known_findings.json): scalepath_range_unchecked,                                   *)
-(*   minkowski_precision_unchecked, noexc_makepath_odd_not_empty,                        *)
-(*   noexc_boolop_range_not_empty - each decided here by a predicate on the call.        *)
+(*   execute_returned_false, and the class of a genuine defect of the unchanged tree     *)
+(*   (known_findings.json): noexc_makepath_odd_not_empty, decided by a predicate on the  *)
+(*   call.  (Former classes S6 / Minkowski precision / noexc BooleanOp range were         *)
+(*   repaired in /repo and are ordinary violations now.)                                  *)
 EXTENDS C11Abs, TLC, Json, IOUtils
 
 VARIABLES l, hdr
@@ -30,20 +30,13 @@ Chk(c, prop, clause, d) == IF c THEN TRUE ELSE Report(prop, clause, d)
 Note(kind, d) == PrintT(<<"NOTE", kind, l, d>>)
 
 RowOf(ev) == [ep |-> ev.ep, p |-> ev.p, q |-> ev.q, zs |-> ev.zs, cnt |-> ev.cnt, ct |-> ev.ct, fr |-> ev.fr,
-              b |-> ev.b, m |-> ev.m, x |-> ev.x, sg |-> ev.sg, ax |-> ev.ax, pos |-> ev.pos]
+              b |-> ev.b, m |-> ev.m, x |-> ev.x, sg |-> ev.sg, ax |-> ev.ax, pos |-> ev.pos, sh |-> ev.sh]
 ObsOf(ev) == Obs(ev.th, ev.err, ev.ret, ev.n, ev.nul, ev.unt, ev.crash)
-
-(* entry points that convert through ScalePath, which has no range check (class S6) *)
-ScalePathUsers == {"SP2_I_D", "SP1_I_D", "SP2_I_I", "SP1_I_I", "TrimCollinearD", "MinkowskiSumD", "MinkowskiDiffD"}
-MinkEPs == {"MinkowskiSumD", "MinkowskiDiffD"}
 
 Clause(a, req) ==
   LET inv == Inv(a) IN
   IF req = "normal" THEN "valid_call_not_normal"
-  ELSE IF a.ep \in MinkEPs /\ "precision" \in inv THEN "minkowski_precision_unchecked"
-  ELSE IF a.ep \in ScalePathUsers /\ inv = {"range"} THEN "scalepath_range_unchecked"
   ELSE IF a.exc = 0 /\ a.ep \in MkEPs /\ inv = {"nonpair"} THEN "noexc_makepath_odd_not_empty"
-  ELSE IF a.exc = 0 /\ a.ep \in BoolFreeEPs /\ inv = {"range"} THEN "noexc_boolop_range_not_empty"
   ELSE IF "precision" \in inv THEN "precision_not_reported"
   ELSE IF "range" \in inv THEN "range_not_reported"
   ELSE IF "scale" \in inv THEN "zero_scale_not_reported"
